@@ -46,7 +46,12 @@ PRIORS_V2 = {}
 for _t in range(7):
     PRIORS_V2["type%d-on" % _t] = v2_group(-1 - _t, power=(20 if _t != 6 else 200), sh=8, eh=10)
     PRIORS_V2["type%d-off" % _t] = v2_group(_t, power=(20 if _t != 6 else 200), sh=8, eh=10)
+for _t in (1, 2, 3, 4, 5, 6):
+    # a foreign schedule type whose group fails decoding LATE (times / flavour byte fine, SoC or power out of range)
+    PRIORS_V2["type%d-badsoc" % _t] = v2_group(-1 - _t, power=(20 if _t != 6 else 200), sh=8, eh=10, soc=0xFFFF)
+    PRIORS_V2["type%d-badpower" % _t] = v2_group(_t, power=0x7FFF, sh=8, eh=10, soc=50)
 PRIORS_V2.update({
+    "badsoc-unset": v2_group(0x55, sh=0x30, sm=0, eh=0x30, em=0, days=0, power=100, soc=0xFFFF),
     "unset": v2_group(0x55, sh=0x30, sm=0, eh=0x30, em=0, days=0, power=100),
     "zeros": bytes(12),
     "ones": b"\xff" * 12,
@@ -161,7 +166,7 @@ def run_mode_case(acc: Acc, case):
         return []
     pc = case["prior"]
     prior_class = pc.split("-")[0] if pc.startswith(("type", "months", "days")) else ("fulltime-charge" if pc.startswith("fulltime-charge") else pc)
-    undecodable_prior = pc in ("garbage", "ones")
+    undecodable_prior = pc in ("garbage", "ones") or "bad" in pc
     key = "C19|%s|%s" % (fam, "emulated" if emulated else mode.name)
     for (m0, p0, s0) in case.get("before", ()):
         # earlier successful calls on the same object / inverter (e.g. the same mode and power with another SoC target)
@@ -185,7 +190,7 @@ def run_mode_case(acc: Acc, case):
         run_sync(inv.set_operation_mode(mode, p, s))
     except ValueError as ex:
         acc.cls("set-raised-ValueError")
-        if emulated and case["prior"] not in ("garbage", "ones"):
+        if emulated and case["prior"] not in ("garbage", "ones") and "bad" not in case["prior"]:
             return [(key + "|setter-raised|prior=%s" % prior_class, "set_operation_mode(%s, %d, %d) raised %r with a decodable prior group (%s)" % (
                 mode.name, p, s, ex, case["prior"]), case)]
         return []  # the property speaks about calls that succeed
